@@ -126,17 +126,12 @@ def is_closed(v):
     """no reference to the state at the start of the path (start symbols, array contents)"""
     if isinstance(v, tuple):
         if v and v[0] in ("var", "sel", "aff", "unknown"):
-            if v[0] == "aff":
-                return False
             return False
         return all(is_closed(x) for x in v)
     return True
 
 
-class Model:
-    """what the executor knows about library calls.  mode 'kernel': unknown calls are refused; mode 'entry': they are opaque terms"""
-    ALLOC1 = ("calloc",)
-    NP_ALLOC = ("np.empty", "np.zeros", "numpy.empty", "numpy.zeros", "np.ones", "np.empty_like")
+NP_ALLOC = ("np.empty", "np.zeros", "numpy.empty", "numpy.zeros")
 
 
 class Exec:
@@ -470,7 +465,13 @@ class Exec:
             return self.simp(("abs", args[0]))
         if name == "calloc" and len(args) == 2:
             return ("alloc", "work", self._need_int(args[0], "calloc count"), None, args[1][1] if args[1][0] == "sizeof" else None)
-        if name in Model.NP_ALLOC:
+        if name == "malloc" and len(args) == 1 and args[0][0] == "bin" and args[0][1] == "*":
+            x, y = args[0][2], args[0][3]
+            if x[0] == "sizeof":
+                x, y = y, x
+            if y[0] == "sizeof":
+                return ("alloc", "work", self._need_int(x, "malloc count"), None, y[1])
+        if name in NP_ALLOC:
             shape = args[0] if args else kw.get("shape")
             dt = args[1] if len(args) > 1 else kw.get("dtype")
             dts = dt[1] if dt is not None and dt[0] in ("sym", "var", "str") else (None if dt is None else show(dt))
@@ -1133,10 +1134,7 @@ def free_vars(e, acc=None):
         if e[0] == "var":
             acc.add(e[1])
         elif e[0] == "aff":
-            acc.update(v for v, _ in e[1] if not v.startswith("<"))
-            for v, _ in e[1]:
-                if v.startswith("<"):
-                    pass
+            acc.update(v for v, _ in e[1] if not v.startswith("<"))      # `<...>` names an opaque term, not a variable
         elif e[0] in ("num", "str", "sym"):
             pass
         else:
@@ -1340,16 +1338,14 @@ def eliminate_caches(ts):
                     if A not in ts.state[t["dst"]]:
                         continue
                     new = t["scal"].get(A, ("var", A))
-                    mp = {}
-                    for v in e.c:
-                        nv = t["scal"].get(v, ("var", v))
-                        mp[v] = nv
+                    mp = {v: t["scal"].get(v, ("var", v)) for v in e.c}
                     try:
-                        want = ("sel", base, subst_vars(aff_ir(e), mp, ex))
+                        want = ("sel", base, subst_vars(aff_ir(e), mp, ex))              # base[e] in the state after the transition
+                        have = subst_vars(new, {A: ("sel", base, aff_ir(e))}, ex)          # new A, using the hypothesis A == base[e] before it
                     except Unsupported:
                         ok = False
                         break
-                    if new != want and new != ("var", A) or (new == ("var", A) and want != ("sel", base, aff_ir(e))):
+                    if have != want:
                         ok = False
                         break
                 if ok:
@@ -1362,8 +1358,6 @@ def eliminate_caches(ts):
             for t in ts.trans:
                 if ts.phase[t["src"]] == p:
                     t = map_trans(t, lambda x, rep=rep, A=A: subst_vars(x, {A: rep}, ex), ts)
-                    if any(b == base and rw == "r" for b, i, rw in t["acc"]) is False:
-                        pass
                 if ts.phase[t["dst"]] == p and A in t["scal"]:
                     t = dict(t, scal={v: x for v, x in t["scal"].items() if v != A})
                 new_trans.append(t)
@@ -1463,6 +1457,27 @@ def reparametrise(ts):
         if c0[w] != 0 or g[w] != 1:
             ts.notes.append(f"{v} (phase {p}) = {c0[w]} + {g[w]}*{v}'")
     ts.params = {k: (c0[w], g[w]) for k, w in web.items()}
+    # a variable that is re-initialised for a later loop nest (the loop counter of step 6) is another variable from there on
+    first = {}
+    for (v, p), w in sorted(web.items(), key=lambda x: x[0][1]):
+        first.setdefault(v, w)
+    ren = {}          # (var, phase) -> new name
+    for (v, p), w in web.items():
+        if w != first[v]:
+            ren[(v, p)] = f"{v}@{w[1]}"
+            ex.ints.add(ren[(v, p)])
+    if ren:
+        out = []
+        for t in ts.trans:
+            ps, pd = ts.phase[t["src"]], ts.phase[t["dst"]]
+            mp = {v: ("var", nn) for (v, p), nn in ren.items() if p == ps}
+            t2 = map_trans(t, lambda x, mp=mp: subst_vars(x, mp, ex), ts) if mp else dict(t)
+            t2["scal"] = {ren.get((v, pd), v): x for v, x in t2["scal"].items()}
+            out.append(t2)
+        ts.trans = out
+        for n in ts.state:
+            p = ts.phase[n]
+            ts.state[n] = {ren.get((v, p), v): k for v, k in ts.state[n].items()}
     return ts
 
 
@@ -1710,21 +1725,21 @@ def compare_named(a, b, only=None):
                 hitA[i] = hitB[j] = True
                 sub = equalities(cons)
                 if ta["dst"] != tb["dst"]:
-                    return {"what": f"from {n}: under the same conditions one goes to {ta['dst']}, the other to {tb['dst']}",
+                    return {"at": n, "what": f"from {n}: under the same conditions one goes to {ta['dst']}, the other to {tb['dst']}",
                             "left": [(show(x), y) for x, y in ta["key"]], "right": [(show(x), y) for x, y in tb["key"]]}
                 live = set(a.state.get(ta["dst"], {}))
                 ea = effect_repr(ta, a, sub, live, cons)
                 eb = effect_repr(tb, b, sub, live, cons)
                 if ea != eb:
                     part = next(k for k in ea if ea[k] != eb[k])
-                    return {"what": f"{n} -> {ta['dst']}: different {part}", "when": [f"{show(x)} is {y}" for x, y in ta["key"]],
+                    return {"at": n, "what": f"{n} -> {ta['dst']}: different {part}", "when": [f"{show(x)} is {y}" for x, y in ta["key"]],
                             "left": ea[part], "right": eb[part]}
         for i, h in enumerate(hitA):
             if not h and feasible_with(GA[i][0], GA[i][1]):
-                return {"what": f"from {n}: a path of the left side has no counterpart", "left": [(show(x), y) for x, y in TA[i]["key"]]}
+                return {"at": n, "what": f"from {n}: a path of the left side has no counterpart", "left": [(show(x), y) for x, y in TA[i]["key"]]}
         for j, h in enumerate(hitB):
             if not h and feasible_with(GB[j][0], GB[j][1]):
-                return {"what": f"from {n}: a path of the right side has no counterpart", "right": [(show(x), y) for x, y in TB[j]["key"]]}
+                return {"at": n, "what": f"from {n}: a path of the right side has no counterpart", "right": [(show(x), y) for x, y in TB[j]["key"]]}
     return None
 
 
@@ -1744,8 +1759,14 @@ def compare(a, b):
     for v, s in sb.items():
         gb.setdefault(s, []).append(v)
     if {s: len(v) for s, v in ga.items()} != {s: len(v) for s, v in gb.items()}:
-        return {"what": "state variables (kind, cut points where live)", "left": sorted((v, s[0], s[1]) for v, s in sa.items()),
-                "right": sorted((v, s[0], s[1]) for v, s in sb.items())}, {}
+        d = {"what": "state variables (kind, cut points where live)", "left": sorted((v, s[0], s[1]) for v, s in sa.items()),
+             "right": sorted((v, s[0], s[1]) for v, s in sb.items())}
+        fl = lambda g: {s: len(v) for s, v in g.items() if s[0] == "float"}       # noqa: E731
+        if fl(ga) == fl(gb):
+            # the two sides keep a different number of integer counters that this engine could not relate (only equal counters are merged):
+            # nothing is proved either way
+            d["undecided"] = True
+        return d, {}
     groups = sorted(ga)
     best = None
     n = 0
@@ -1765,6 +1786,7 @@ def compare(a, b):
         d = compare_named(a, b2)
         if d is None:
             return None, mp
-        if best is None:
-            best = (d, mp)
-    return best
+        rank = a.nodes.index(d["at"]) if d.get("at") in a.nodes else -1
+        if best is None or rank > best[2]:
+            best = (d, mp, rank)           # the renaming under which the two sides agree longest
+    return best[0], best[1]
